@@ -79,10 +79,11 @@ CLAIMS = {
  'C17': dict(cat='proof', tech='Lean 4 theorem captures_eq_filter_of_WF (ordered list equality) + correspondence',
    text="PROVED (Props/C17): for every well-formed position the capture generator yields exactly - same moves, same order - the capturing moves of the full generator (captures_eq_filter_of_WF); the exact condition outside "
         "well-formedness is characterised (captures_eq_filter_iff_castling). Tie: ordered lists compared; multiset equality asserted on the Go side.", ref='5/C17, 10.4'),
- 'C18': dict(cat='proof', tech='Lean 4 theorems swap list = minimax / pruning keeps the sign / model loop = swap list + spec minimax oracle on constructed batteries',
+ 'C18': dict(cat='proof', tech='Lean 4 theorems: swap list = minimax, pruning keeps the sign, model attacker sequence = spec attackers, sign(SEE) = sign(spec minimax) for legal captures (<= 32 men) + correspondence + spec oracle on constructed batteries',
    text="PROVED (Props/C18): the unpruned swap list equals the exchange minimax exactly, the early exit never changes the sign (swap_sign), and the model's loop is that swap list over its attacker sequence (see_eq_swap, see_sign). "
-        "The agreement of that attacker sequence with the specification's recomputed attackers is decided by oracle: exact value vs model and sign vs recursive spec minimax on all legal captures of generated positions and "
-        "constructed battery / king-adjacent exchanges.", ref='5/C18, 10.4'),
+        "C18b: the model's incrementally maintained attacker sequence equals the specification's recomputed least attackers (see_attackers_spec), the king rule agrees (see_king_rule), hence for every legal "
+        "non-en-passant capture of a well-formed position with at most 32 men sign(SEE) = sign(spec minimax) (see_sign_spec_partial; the 32-men bound is necessary). Tie: exact value vs model and sign vs recursive spec minimax on all "
+        "legal captures of generated positions and constructed battery / king-adjacent exchanges.", ref='5/C18, 10.4'),
  'C19': dict(cat='proof', tech='Lean 4 theorems (SortIndex visiting = sorted permutation, scoring touches only score bits) + regenerated accessor tie + correspondence',
    text="PROVED (Props/C19, C19b): visiting by SortIndex is a permutation in non-increasing score order for lists of any length; scoring changes only the score bits for every heuristic state; generated words carry no score bits; "
         "move accessors regenerated from the source text equal the model accessors. Tie: scored list and visit order compared for generated positions x heuristic states.", ref='5/C19, 10.4'),
